@@ -111,6 +111,10 @@ fn run_vec<K: Kind<Tok> + Kind<Wide> + Kind<tok::Plain> + Kind<crate::zexec::ZDr
 
 fn run_vec_x<K: Kind<X>, X: Item>(plan: &Plan, st: &mut Stats, fl: &mut Flags, counts: &mut (u32, u32), viol_op: &mut Option<OpK>) {
     let mut ex = VecExec::<K, X>::new(plan.kind, st);
+    ex.uniform = plan.uniform;
+    if plan.uniform {
+        ex.st.runs_uniform += 1;
+    }
     ex.start_fresh_arr();
     for (i, op) in plan.ops.iter().enumerate() {
         set_step(i as u32);
@@ -273,7 +277,7 @@ pub fn execute(plan: &Plan, st: &mut Stats, trace: bool) -> Outcome {
 }
 
 pub fn plan_hash(p: &Plan) -> u64 {
-    let mut h = fnv_step(crate::rng::FNV_INIT, p.kind as u64 | (p.elem as u64) << 32);
+    let mut h = fnv_step(crate::rng::FNV_INIT, p.kind as u64 | (p.elem as u64) << 32 | (p.uniform as u64) << 40);
     for op in &p.ops {
         h = fnv_step(h, op_code(*op));
     }
